@@ -925,6 +925,32 @@ func c10ShiftLoops(p *Prog, r *Report, x *Exec) {
 			has := e.HasGuard(func(c *Cond) bool {
 				return c.Kind == "cmp" && c.Op == token.EQL && stripVersions(c.P).Equal(g.P)
 			})
+			// or: equality with a local that carries the predecessor's ORIGINAL date from one iteration to the next
+			// (a local assigned, after the shift store of an iteration, the value the slot had before that store)
+			viaLocal := false
+			if !has {
+				for _, c := range flattenGuards(e.Guards) {
+					if c.Kind != "cmp" || c.Op != token.EQL {
+						continue
+					}
+					rest := stripVersions(c.P).Sub(cellP(w.root, hi))
+					restN := stripVersions(c.P).Add(cellP(w.root, hi))
+					for _, q := range []Poly{rest, restN} {
+						t := q.single()
+						if t == nil || len(t.M) != 1 || t.M[0].E != 1 || t.M[0].A.Kind == "cell" {
+							continue
+						}
+						name := t.M[0].A.Root
+						for _, a := range x.Events {
+							if a.Kind == "assign" && a.Local != nil && a.Local.Name() == name && a.InLoop(L) && a.Seq > e.Seq && stripVersions(a.Val).Equal(cellP(w.root, hi)) {
+								viaLocal = true
+								det += fmt.Sprintf("; compared with %s, which carries the slot's original date to the next iteration", name)
+							}
+						}
+					}
+				}
+				has = viaLocal
+			}
 			if !has {
 				ok = false
 				det += "; not guarded by equality with the preceding slot"
@@ -969,6 +995,12 @@ func c10ShiftLoops(p *Prog, r *Report, x *Exec) {
 				det += fmt.Sprintf("; last compared slot %s", lastHi)
 			}
 			r.Ob(w.name+":shift", p.Pos(e.Pos), ok, det)
+			// cascade: the loop runs upwards in unit steps and compares slot v+1 with the array cell of slot v — the
+			// cell the previous iteration may just have moved.  For dates d, d, d+1 the third event is compared with
+			// the shifted second (d+1), moved to d+2 and carried out two days after its own date.
+			if has && !viaLocal && why == "" && unit {
+				r.Ob(w.name+":shift-cascade", p.Pos(e.Pos), false, fmt.Sprintf("the same-day shift of the %s schedule compares each event with the already shifted date of its predecessor (the array cell the previous iteration stored): for dates d, d, d+1 — two events on one day followed by one on the next, inside the property's domain — the third event is moved to d+2 and carried out on d+3, two days after its date", w.name))
+			}
 		}
 		if !found {
 			r.Ob(w.name+":shift", "-", false, "duplicate-date shift loop over "+shortRoot(w.root)+" not found")
